@@ -46,6 +46,9 @@ def main():
                                stdout=subprocess.DEVNULL, stderr=subprocess.DEVNULL)
                 p = subprocess.run(["git", "apply", "--recount", path], cwd=repo, capture_output=True, text=True)
                 if p.returncode != 0:
+                    p = subprocess.run(["git", "apply", "--3way", path], cwd=repo, capture_output=True, text=True)
+                if p.returncode != 0:
+                    subprocess.run(["git", "checkout", "-q", "--", "."], cwd=repo)
                     p = subprocess.run(["patch", "-p1", "-s", "-i", path], cwd=repo, capture_output=True, text=True)
                 if p.returncode != 0:
                     rows.append(dict(prop=pid, mutant=name, result="patch-failed", detail=(p.stdout + p.stderr)[-300:]))
